@@ -108,7 +108,20 @@ def interdependent_family():
             for x in ('/', '\\'):
                 out.append('C[C%sH](O)/C=C%s[C%sH](O)C' % (a, x, b))
                 out.append('C[C%sH](O)C(=C)[C%sH](O)C' % (a, b))
+    out += list(interdependent_trisubstituted())
     return sorted(set(out))
+
+
+def interdependent_trisubstituted():
+    """{text: number of labels}: a carbinol centre between two constitutionally equal TRI-substituted double bonds; the centre is stereogenic exactly when
+    the two arms differ in configuration (hand-asserted: arms equal <=> the two marks next to the centre are equal)"""
+    out = {}
+    for a in ('@', '@@'):
+        for x in ('/', '\\'):
+            for y in ('/', '\\'):
+                out['C/C(F)=C%s[C%sH](O)%sC=C(F)/C' % (x, a, y)] = 3 if x != y else 2
+                out['CC/C(C)=C%s[C%sH](Cl)%sC=C(C)/CC' % (x, a, y)] = 3 if x != y else 2
+    return out
 
 
 def tautomer_stereo_family():
